@@ -44,6 +44,12 @@ var c20Payloads = []struct{ Name, V string }{
 	{"comment-close-odd-dashes", `---><script>alert(1)</script>`},
 	{"comment-close-five-dashes", `-----><img/src=x/onerror=alert(1)>`},
 	{"comment-close-bang", `--!><script>alert(1)</script><!--`},
+	// a message that begins with a complete JSON object and goes on (what an identity provider's error
+	// document followed by a remark, or two documents, look like)
+	{"attribute-breakout-without-blanks", `"><script>alert(document.domain)</script>`},
+	{"json-object-then-text", `{"error":"access_denied"} (request id 42)`},
+	{"two-json-objects", `{"a":1}{"b":2}`},
+	{"json-object-then-brace", `{} }`},
 	{"long-attribute-breakout", `"><img src=x onerror=alert(1)>` + strings.Repeat("a", 80)},
 }
 
@@ -228,6 +234,18 @@ func c20Run(c *fw.Ctx) {
 			}})
 		}
 	}
+	// the page that goes with the proxy's redirect from http to https: raw query text and the Host
+	ys := "- service: svca\n  default:\n    from: " + hostA + "\n    to: {{backend:a}}\n    options:\n      allowed_email_domains:\n        - corp.test\n"
+	pes, err := harness.NewProxyEnv(harness.ProxyOpts{YAML: ys, Backends: []string{"a"}, TemplateVars: map[string]string{}, CookieSecure: true})
+	if err != nil {
+		panic(explore.HarnessError{Msg: err.Error()})
+	}
+	defer pes.Close()
+	positions = append(positions, c20Position{Name: "proxy/https-redirect-page/raw-query-text", Side: "proxy-secure", Build: func(w *c20World, v, accept string) *http.Request {
+		return harness.NewRequest("GET", "/search?q="+v, hostA, hdrAccept(nil, accept), nil)
+	}}, c20Position{Name: "proxy/https-redirect-page/query-parameter", Side: "proxy-secure", Build: func(w *c20World, v, accept string) *http.Request {
+		return harness.NewRequest("GET", "/search?q="+url.QueryEscape(v), hostA, hdrAccept(nil, accept), nil)
+	}})
 	healthyIdP(ae, "bob@corp.test")
 	pe.Auth.Answer = func(cl *harness.AuthCall) harness.AuthAnswer { cl.Answer = "500"; return ans(500, "x") }
 	render := func(p c20Position, v, accept string) (status int, ctype, body string, ok bool) {
@@ -237,6 +255,10 @@ func c20Run(c *fw.Ctx) {
 			}
 		}()
 		req := p.Build(w, v, accept)
+		if p.Side == "proxy-secure" {
+			r := pes.Do(req)
+			return r.Status, r.Header.Get("Content-Type"), r.Body, true
+		}
 		if p.Side == "proxy" {
 			r := pe.Do(req)
 			return r.Status, r.Header.Get("Content-Type"), r.Body, true
@@ -351,7 +373,7 @@ func init() {
 	fw.Register(&fw.Check{
 		ID:    "C20",
 		Level: "exploration",
-		Rule: "full product of 20 payloads (also odd runs of dashes before '>' and '--!>', which close an HTML comment) (text that already looks escaped, long values with markup, thorough: plus each of the 256 byte values inside a benign value and all 400 ordered pairs of 20 metacharacters in front of an event-handler-shaped tail) (URL-bearing text, brace-prefixed text, script element, attribute break-out with double and single quotes, </title> break-out, javascript: URL, entity-encoded markup, UTF-7, overlong UTF-8, NUL, template actions, comment break-out, CR/LF/TAB) x 24 request-controlled positions on the real services (the 14 below plus, for each service's error page, the raw query text and the X-Forwarded-For, User-Agent, Referer and X-Forwarded-Host request headers) " +
+		Rule: "full product of 24 payloads (also messages that begin with a complete JSON object and go on) (also odd runs of dashes before '>' and '--!>', which close an HTML comment) (text that already looks escaped, long values with markup, thorough: plus each of the 256 byte values inside a benign value and all 400 ordered pairs of 20 metacharacters in front of an event-handler-shaped tail) (URL-bearing text, brace-prefixed text, script element, attribute break-out with double and single quotes, </title> break-out, javascript: URL, entity-encoded markup, UTF-7, overlong UTF-8, NUL, template actions, comment break-out, CR/LF/TAB) x 26 request-controlled positions (also the page that accompanies the proxy's http-to-https redirect: raw query text, query parameter) on the real services (the 14 below plus, for each service's error page, the raw query text and the X-Forwarded-For, User-Agent, Referer and X-Forwarded-Host request headers) " +
 			"(proxy callback `error`; authenticator callback `error`, sign-in page redirect_uri query / raw path / host label / state and parameter names, sign-out page redirect_uri and session email, sign-in / sign-out page with a javascript:-scheme redirect_uri whose host is in domain, sign_in / start / client_id / redeem error responses) x Accept {none, */*, text/plain, images first, application/json (or XHR) where the position has a JSON rendering, and there also lists naming JSON and HTML in either order, the axios default and a browser's list}; a response without a declared type is taken for what a browser would sniff; " +
 			"oracle: the HTML token structure (element names and attribute names, via golang.org/x/net/html's tokenizer) equals that of the same page rendered with a benign value, no URL attribute carries a script URL, and JSON bodies parse; " +
 			"distinct_nontrivial = distinct (position, payload, json, status, reflected?)",
